@@ -479,11 +479,13 @@ def optimizer_always_runs(ctx, prog):
 
 
 def limit_is_constant(ctx, prog):
-    """C17-R6: what the planner unwraps, the binder has checked"""
+    """C17-R6: what the planner unwraps, the binder has produced"""
+    from tmpl import local_defs
     R6 = 'C17-R6'
-    ctx.rule(R6, 'row estimation and the executor builder unwrap the LIMIT and OFFSET of a plan as constants (`expect("limit should be '
-                 'constant")`); so where the binder builds a Limit node, both expressions have passed a constant-expression check that '
-                 'can fail the statement')
+    ctx.rule(R6, 'row estimation and the executor builder unwrap the LIMIT and OFFSET of a plan: `constant.expect("limit should be constant")`, '
+                 '`.as_usize().unwrap()`, and `.unwrap()` again for the offset. So where the binder builds a Limit node, both operands are ids '
+                 'returned by a function that (a) can fail the statement, (b) tests the folded value with DataValue::as_usize and (c) puts an '
+                 'Expr::Constant into the plan - a constant expression that does not fold, a negative number or a NULL offset must not get through')
     hit = False
     for b in prog.bodies.values():
         if not re.match(r'^binder::', b.name):
@@ -494,24 +496,31 @@ def limit_is_constant(ctx, prog):
             arr = st['rv']['ops'][0] if st['rv'].get('ops') else None
             ids = []
             if arr is not None and arr['k'] != 'const':
-                from tmpl import local_defs
                 for _, kind, payload in local_defs(b, arr['pl']['l']):
                     if kind == 'assign' and payload.get('rv') == 'agg':
                         ids = [o['pl']['l'] for o in payload.get('ops', [])[:2] if o['k'] != 'const']
-            guards = [c for c in b.calls if re.search(r'is_const(ant)?(_expr)?$', (c.fn or '').rsplit('::', 1)[-1])]
-            cov = set()
-            for g in guards:
-                for a in g.args[1:2]:
-                    if a['k'] != 'const':
-                        cov |= origin_locals_indexed(b, a['pl']['l'], depth=20)
-            src = set()
+            producers = {}
             for l in ids:
-                src |= {x for x in origin_locals_indexed(b, l, depth=6)}
-            ok = bool(ids) and bool(guards) and all(cov & origin_locals_indexed(b, l, depth=6) for l in ids) and bool(b.error_exit_blocks())
+                good = []
+                for x in origin_locals_indexed(b, l, depth=6):
+                    for _, kind, payload in local_defs(b, x):
+                        if kind != 'call':
+                            continue
+                        for cn in prog.callee_bodies(type('C', (), {'res': payload.get('res'), 'fn': payload.get('fn'), 't': payload})()):
+                            cb = prog.bodies[cn]
+                            grp = prog.group(cb.root)
+                            checks = any((c.fn or '').endswith('DataValue::as_usize') for g in grp for c in g.calls)
+                            builds = any(True for g in grp for _ in g.aggregates('planner::Expr', 'Constant'))
+                            fails = any(g.error_exit_blocks() for g in grp)
+                            if checks and builds and fails:
+                                good.append(cb.root.rsplit('::', 1)[-1])
+                producers[l] = sorted(set(good))
+            ok = len(ids) == 2 and all(producers.get(l) for l in ids)
             ctx.ob(R6, f'{b.root}·limit-offset-checked-constant', ok,
-                   f'{b.name}: Limit node built at block {bb}; constant checks: {[site(b, g.bb) for g in guards]}', [site(b, bb)],
-                   what='the binder accepts any expression as LIMIT / OFFSET: `select * from t limit a` panics in row estimation '
-                        '("limit should be constant")')
+                   f'{b.name}: Limit node built at block {bb}; its limit / offset operands come from {list(producers.values())}', [site(b, bb)],
+                   what='the binder lets a LIMIT / OFFSET through that the planner cannot unwrap: `limit a` (a column), `limit -1`, `offset null`, '
+                        '`limit (case when true then 1 else 2 end)` are accepted and panic in row estimation or in the executor builder - on the '
+                        'caller\'s thread, outside any operator task')
     ctx.anchor(R6, 'binder: construction of a Limit node', hit)
 
 
